@@ -74,6 +74,14 @@ CLAIMED["C15"] = dict(
     note="Trusted: canonical-state soundness argument (DESIGN 3/C15), lxml C14N for comparison. Queries are judged by lazy==eager only.",
     design="DESIGN.md 3/C15",
 )
+CLAIMED["C16"] = dict(
+    level="model_checking",
+    engine="E1",
+    technique="explicit-state exploration of the Python process (digest of all picosvg module-level mutable state, fork as snapshot, one fork per action) to closure + enumeration of hash seeds x fresh/long-lived processes x batch permutations",
+    text="Part A enumerates PYTHONHASHSEED values x fresh vs long-lived interpreter x CLI over a corpus and compares every output hash with the document's solo conversion. Part B explores the state graph of the process itself: the state is a structural digest of every global of picosvg.* (class dicts, function defaults/closures, lru_cache sizes, module dicts), an action converts one document of the alphabet in a fork of the state; all ordered pairs are run concretely and the canon-deduplicated BFS continues until the state set closes, which extends the verdict to histories of any length over the alphabet; all 24 permutations of six 4-document batches are run too.",
+    note="Assumes that state hidden in C extensions (lxml, Skia) is not history-carrying beyond what Part A / permutation runs exercise; hash seeds outside the enumerated set are not covered.",
+    design="DESIGN.md 3/C16",
+)
 NOT_YET = "check not built yet in this session (design in DESIGN.md section 3); no claim is made"
 
 checks = []
